@@ -154,9 +154,11 @@ def httpOutcome (ms : List Marshaler) (dflt : Marshaler) (r : BindReq) (wholeBod
         | [], _ => { status := 200, ct := none, body := some [] }
         | ps, _ => { status := 200, ct := some ct, body := some (streamBody b.isSSE ps) }
     else
-      if b.respM.binary && !wholeBody then { status := 500, ct := some ct, body := none }
-      else match ps, e with
-        | p :: _, .ok => { status := 200, ct := some ct, body := if b.respM.binary then none else some p }
+      match ps, e with
+        | p :: _, .ok =>
+          -- the binary test marshaler only marshals whole messages: Internal once a response is marshaled
+          if b.respM.binary && !wholeBody then { status := 500, ct := some ct, body := none }
+          else { status := 200, ct := some ct, body := if b.respM.binary then none else some p }
         | _, .err c _ => { status := httpStatusFromCode c, ct := some ct, body := none }
         | _, _ => { status := 503, ct := some ct, body := none }
 
